@@ -1,6 +1,6 @@
 (** Property C07 - tuning parameters never change observable behaviour. *)
 From Aby Require Import Base Vu64 Hash KeyTypes Consts Sizing Alloc AllocInv Htx Htx_proofs Store Spec
-  Refine Refine_all Iter Iter_proofs Layout Bulk Db.
+  Refine Refine_all Iter Iter_proofs Layout Bulk Db Cache Cache_proofs.
 
 (** (1) every hash-table size the crate derives - given directly (BucketsSize x -> next power of
     two) or as a capacity (Capacity c -> 8 below 8, else next power of two of c + c/8), or the
@@ -63,3 +63,46 @@ Example C07_nonvacuous :
   buckets_of_param (Capacity 1) = Ok 8 /\ buckets_of_param (Capacity 100) = Ok 128 /\
   buckets_of_param (Capacity 0) = Panic BadParam /\ buckets_of_param BDefault = Ok 16777216.
 Proof. vm_compute. repeat split; reflexivity. Qed.
+
+(* from here on the names of the cache model (read, write, flush, ... of Cache.Rabuf) are in scope *)
+Import Rabuf.
+
+(** (4) THE BUFFER CACHE.  [Cache.Rabuf] is an executable model of rabuf::BufFile (the dependency
+    every file access goes through) for the feature set the crate enables: chunk table, dirty flags,
+    pinned chunk 0, flush-everything-and-drop on overflow, auto / per-mille growth of the chunk
+    limit, seek past the end extends the file; it is run against the REAL rabuf on random operation
+    sequences by this check.  [Flat]: a plain byte string with a position.  For every chunk size > 0
+    and every configuration satisfying [cache_inv] at open - that is every FileBufSizeParam except
+    PerMille(p) with p < 1000 ([C07_every_setting_opens_well]: Size(v) always yields >= 2 chunks, the
+    repaired defect D5) - every operation sequence inside the flat model's domain returns, operation
+    by operation, exactly what the flat model returns (so results cannot depend on the buffer
+    setting, however small: eviction is invisible), never runs out of fuel, and after a flush the
+    disk is the flat byte string. *)
+Theorem C07_cache_transparent : forall ops fuel c f f' outs,
+  cache_inv c -> R c f -> frun (k_cs c) f ops = Some (f', outs) ->
+  (run_fuel (k_cs c) f ops <= fuel)%nat ->
+  exists c', crun fuel c ops = Ok (c', outs) /\ cache_inv c' /\ R c' f' /\
+    logical c' = f_bytes f' /\
+    exists c'', flush c' = Ok c'' /\ k_disk c'' = f_bytes f'.
+Proof. exact cache_refines_flat. Qed.
+
+Theorem C07_every_setting_opens_well : forall b disk c,
+  open_param b disk = Ok c -> (forall p, b = BPerMilleP p -> 1000 <= p) ->
+  cache_inv c /\ R c (Flat 0 disk).
+Proof. exact inv_open_param. Qed.
+
+Theorem C07_size_setting_has_two_chunks : forall v, 2 <= chunks_of_param v.
+Proof. exact size_param_at_least_two. Qed.
+
+(** KNOWN FINDING D8 (known_findings.txt; the defect is inside the dependency): PerMille(p) with
+    p < 1000 on a file that has outgrown one chunk opens with a single chunk, and with the single
+    chunk pinned any access to another chunk exhausts EVERY fuel - the real code recurses forever *)
+Theorem C07_known_finding_D8_opens_with_one_chunk : forall p disk,
+  p < 1000 -> (blen disk / 1000) * p < aby_chunk_size ->
+  exists c, open_param (BPerMilleP p) disk = Ok c /\ k_max c = 1.
+Proof. exact d8_opens_with_one_chunk. Qed.
+
+Theorem C07_known_finding_D8_diverges : forall fuel c off,
+  single_pinned c -> add_chunk fuel c off = OutOfFuel.
+Proof. exact single_chunk_diverges. Qed.
+
